@@ -80,6 +80,7 @@ package dag
 //@   loop "for _, tDependency := range tDependencies"
 //@     invariant dep.wf: WF(g) && Registered(g, vertex) && g == old(g)
 //@     invariant dep.keeps: forall id ID :: old(id in g.Vertices) ==> (id in g.Vertices) && g.Vertices[id] == old(g.Vertices[id])
+//@     step dep.edge {C14,C16}: !$exit ==> (forall d *Vertex :: d == vDependency ==> isappend1(vertex.Children, old_iter(vertex.Children), d) && isappend1(d.Parents, old_iter(d.Parents), vertex))
 //@   loop "for _, c := range vertex.Children"
 //@     invariant dup.none: forall i int :: 0 <= i && i <= $idx ==> vertex.Children[i].ID != vDependency.ID
 
